@@ -108,6 +108,20 @@ CLAIMED = {
         "differ on bound inclusivity, which the properties leave open). Neighbour events use regular kinds only.",
         "DESIGN.md §6 C11",
     ),
+    "C09": (
+        "Lean 4 theorems (frame condition of the LMDB writer's add task via scanner soundness + key ownership under the coherence invariant; SQL pre_save/post_save characterisation) + differential correspondence of the stored set after every event on both backends",
+        "Proof: NostrRelay/Props/C09.lean proves for every coherent LMDB store and every added event that whatever "
+        "disappears is not the new event, has the new event's author and kind, is not newer and (kinds 30000-39999) has "
+        "the same d value — first d tag, \"\" when missing or bare — and that regular events remove nothing "
+        "(kv_add_removed_spec, via scanner soundness, big-endian order and key ownership in Props/KVScan.lean); for SQL "
+        "that every row that disappears has the new event's address and is strictly older, that after an accepted "
+        "replaceable event no older version of its address is left, and that nothing at least as new is removed. Both "
+        "backends violated C09 on the pinned tree (d-tag substring test / missing d deletes all on LMDB; only one older "
+        "row removed on SQL): repaired by two fix: commits, kept as regression replays.",
+        "Trusted: as C10/C01; validators disabled for the synthetic histories; PkOk (32-byte pubkeys) holds for admitted "
+        "events (BIP-340 verification); 'older' on LMDB is '<=' (equal timestamps are left open by the property).",
+        "DESIGN.md §6 C09",
+    ),
 }
 
 NOT_YET = "not reached yet in this round (model/tie not built); see DESIGN.md §10 staging — no weaker technique is substituted"
